@@ -144,7 +144,8 @@ def gen_layout(rng, arts, kinds=("dir", "zip", "plain"), max_containers=5):
             plains.append((kind, name, cid))
             continue
         if kind in ("info", "xml", "decoy", "profraw") and not keep and rng.random() < 0.4:
-            name = rng.choice(["n1/", "n1/n2/", "zz/"]) + name
+            # nested directories, also with names that look like files of interest
+            name = rng.choice(["n1/", "n1/n2/", "zz/", "n1.info/", "res.xml/n2.json/", "old.zip/", "p.profraw/q.profdata/", "o.gcno/", "o.gcda/x/"]) + name
         order = list(range(n))
         rng.shuffle(order)
         for i in order:
@@ -157,7 +158,10 @@ def gen_layout(rng, arts, kinds=("dir", "zip", "plain"), max_containers=5):
     for i, c in enumerate(conts):
         es = list(c["entries"].items())
         rng.shuffle(es)
-        nm = ("d%d" % i) if c["kind"] == "dir" else ("z%d.zip" % i)
+        # directory arguments whose NAME carries an extension grcov knows are directories like any other
+        # (a directory argument named *.zip is the known finding dir-named-zip: only in the hand-made stream)
+        sfx = rng.choice(["", "", ".info", ".json", ".xml", ".profraw", ".profdata", ".gcno", ".gcda", ".d"])
+        nm = ("d%d%s" % (i, sfx)) if c["kind"] == "dir" else ("z%d%s.zip" % (i, rng.choice(["", "", ".info", ".xml", ".gcno"])))
         if rng.random() < 0.3:
             nm = "up/" + nm
         args.append({"kind": c["kind"], "name": nm, "entries": [[n_, cid, k] for n_, (k, cid) in es]})
